@@ -544,6 +544,77 @@ pub async fn fmt(seed: u64, thorough: bool) {
         }
     }
     h::emit_stat("scan_memory_cases", n_scan);
+    // the bounded output buffer of `decompress` under arbitrary writes (hook bitar::verif_limited_output): the
+    // buffer, or the index of the refused write; the independent oracle: never more than the limit is held
+    #[cfg(oll3_bita_verif)]
+    {
+        let mut n_sink = 0;
+        for i in 0..(if thorough { 3000 } else { 600 }) {
+            let limit = match rng.below(5) {
+                0 => rng.below(4) as usize,
+                1 => rng.range(1, 40) as usize,
+                2 => 4096,
+                _ => rng.range(1, 300) as usize,
+            };
+            let k = rng.below(7) as usize;
+            let mut lens: Vec<usize> = (0..k)
+                .map(|_| match rng.below(6) {
+                    0 => 0,
+                    1 => limit,
+                    2 => limit + 1,
+                    3 => rng.below(limit as u64 / 2 + 2) as usize,
+                    _ => rng.below(limit as u64 + 3) as usize,
+                })
+                .collect();
+            if i % 5 == 0 && k >= 2 {
+                // exactly up to the limit, then one more byte
+                let used: usize = lens[..k - 1].iter().sum();
+                if used <= limit {
+                    lens[k - 2] += limit - used;
+                    lens[k - 1] = 1;
+                }
+            }
+            let total: usize = lens.iter().sum();
+            let data = h::pattern(total);
+            let mut pieces: Vec<&[u8]> = Vec::new();
+            let mut o = 0;
+            for &l in &lens {
+                pieces.push(&data[o..o + l]);
+                o += l;
+            }
+            let req = format!("sink {} {}", limit, if lens.is_empty() { "-".to_string() } else { h::join(&lens.iter().map(|l| l.to_string()).collect::<Vec<_>>(), ".") });
+            let mut peak = 0usize;
+            let mut acc = 0usize;
+            for &l in &lens {
+                if acc + l > limit {
+                    break;
+                }
+                acc += l;
+                peak = peak.max(acc);
+            }
+            let ans = match h::catch(|| bitar::verif_limited_output(limit, &pieces)) {
+                Ok(Ok(buf)) => {
+                    if buf.len() > limit || buf[..] != data[..buf.len()] || total > limit {
+                        h::emit_oracle_fail("decompression-buffer-holds-more-than-the-declared-size", &req);
+                    }
+                    format!("ok {} peak={}", h::digest(&buf), peak)
+                }
+                Ok(Err(ix)) => {
+                    if total <= limit {
+                        h::emit_oracle_fail("write-within-the-declared-size-refused", &req);
+                    }
+                    format!("refused-at {} peak={}", ix, peak)
+                }
+                Err(_) => {
+                    h::emit_oracle_fail("limited-output-panic", &req);
+                    "panic".to_string()
+                }
+            };
+            h::emit_case(&req, &ans);
+            n_sink += 1;
+        }
+        h::emit_stat("limited_output_cases", n_sink);
+    }
     h::emit_stat("cases", st.cases);
     for (k, v) in &st.kinds {
         h::emit_stat(&format!("kind_{}", k), *v);
